@@ -408,7 +408,9 @@ def evaluate(ctx, cases, stream=None):
             j = next((i for i, (x, y) in enumerate(zip(ca['a'], ca['b'])) if x != y), min(len(ca['a']), len(ca['b'])))
             exp = ca['a'][j] if j < len(ca['a']) else None
             got = ca['b'][j] if j < len(ca['b']) else None
-            ctx.fail(f'C07|order|expected={exp[0] if exp else "end"}|got={got[0] if got else "end"}' if not has_incl else f'C07|order|include|expected={exp[0] if exp else "end"}|got={got[0] if got else "end"}',
+            kind = next((k for k, l in case['lines'] if exp and l.split() and k not in ('cont', 'rawcont', 'comment', 'blank')
+                         and (l.split()[0].upper()[:4] == exp[0][:4] or l.split()[0].upper() == exp[0])), 'end')
+            ctx.fail(f'C07|order|{"include|" if has_incl else ""}expected-kind={kind}',
                      f'instruction sequence of the written file differs from the input at position {j}: expected {exp}, written {got}',
                      dict(base, stream='order', expected=ca['a'], actual=ca['b'], model=m['model_keys']))
         # --- verbatim, in place (slot comparison with the by-construction tags and with the model) --------------
@@ -495,7 +497,7 @@ def run(ctx):
                        'uninterpreted lines are shorter than 79 characters (longer ones are re-wrapped by wrap_line: C06)',
                        'include files are self-contained (no SFAC/FVAR, no dangling =, no nested +file) and named once',
                        'UNIT numbers below 1000 and no exponent forms (printing of large numbers: C01)']
-    n = ctx.budget(140, 4000)
+    n = ctx.budget(400, 6000)
     cases = []
     for i in range(n):
         cases.append(make_case(ctx.rng, with_include=(i % 2 == 1)))
